@@ -911,3 +911,69 @@ func (b *B) Eval(t *Term, model map[string]uint64) uint64 {
 	}
 	return ev(t)
 }
+
+// Subst rebuilds t with variables replaced according to m (by variable name).
+func (b *B) Subst(t *Term, m map[string]*Term, memo map[int]*Term) *Term {
+	if r, ok := memo[t.ID]; ok {
+		return r
+	}
+	var r *Term
+	switch t.Op {
+	case OpConst:
+		r = t
+	case OpVar:
+		if n, ok := m[t.Name]; ok {
+			r = n
+		} else {
+			r = t
+		}
+	default:
+		args := make([]*Term, len(t.Args))
+		same := true
+		for i, a := range t.Args {
+			args[i] = b.Subst(a, m, memo)
+			if args[i] != a {
+				same = false
+			}
+		}
+		if same {
+			r = t
+		} else {
+			r = b.rebuild(t, args)
+		}
+	}
+	memo[t.ID] = r
+	return r
+}
+
+func (b *B) rebuild(t *Term, a []*Term) *Term {
+	switch t.Op {
+	case OpNot:
+		return b.Not(a[0])
+	case OpAnd:
+		return b.And(a...)
+	case OpOr:
+		return b.Or(a...)
+	case OpIte:
+		return b.Ite(a[0], a[1], a[2])
+	case OpEq:
+		return b.Eq(a[0], a[1])
+	case OpBNot:
+		return b.BNot(a[0])
+	case OpNeg:
+		return b.Neg(a[0])
+	case OpULT, OpULE, OpSLT, OpSLE:
+		return b.cmp(t.Op, a[0], a[1])
+	case OpConcat:
+		return b.Concat(a[0], a[1])
+	case OpExtract:
+		return b.Extract(a[0], t.Hi, t.Lo)
+	case OpZExt:
+		return b.ZExt(a[0], t.W)
+	case OpSExt:
+		return b.SExt(a[0], t.W)
+	case OpUF:
+		return b.UF(t.Name, t.W, a...)
+	}
+	return b.bin(t.Op, a[0], a[1])
+}
